@@ -35,8 +35,8 @@ def consts(thorough, spaces=SPACES, tables=(2, 3, 4)):
     if thorough:
         c.update({"PathNames": {"unbound", "plain", "abstract", "spaced", "absspace", "twospace", "atsign", "long"},
                   "BadKinds": {"", "TCP", "tcp5", "inet "}, "NTempl": 11,
-                  "T2Kinds": {"all", "inet", "unix", "tcp4", "udp6"}, "T2Whos": {0, 11, 12},
-                  "T3Kinds": {"all"}, "T3Whos": {0, 12}, "T3Slots": {11003, 11004, 12003, 12004},
+                  "T2Kinds": {"all", "inet", "unix", "tcp4", "udp6", "inet6", "TCP"}, "T2Whos": {0, 11, 12},
+                  "T3Kinds": {"all"}, "T3Whos": {0, 11, 12}, "T3Slots": {11003, 11004, 12003, 12004},
                   "T4Kinds": {"all"}, "T4Whos": {0}, "T4Slots": {11003, 11004, 12003}})
     for n in (2, 3, 4):
         if n not in tables or "table" not in spaces:
@@ -217,7 +217,7 @@ def replay(ctx, name, raws, cov, rec, seen, chunk=60):
     ctx.cov.setdefault("replay", {})[name] = {"cases": len(raws), "disagreements": nbad}
     if raws:
         ev = json.loads(raws[len(raws) // 2])
-        ctx.sample({"kind": "enumerated input '%s'" % name, "input": ev["inp"], "expected": ev["out"]}, limit=3)
+        ctx.sample({"kind": "enumerated input '%s'" % name, "input": ev["inp"], "expected": ev["out"]}, limit=2)
 
 
 # ---- code -> spec -----------------------------------------------------------
@@ -369,9 +369,9 @@ def trace_validate(ctx, n, rec, live, cov):
         "random_records": nrand, "live_records": nlive, "cross_checked_records": len(rec),
         "rejected": sum(1 for i in rej if "py" not in lines[i])}
     if nrand:
-        ctx.sample({"kind": "recorded trace line", "line": lines[0]})
+        ctx.sample({"kind": "recorded trace line", "line": lines[0]}, limit=3)
     if nlive:
-        ctx.sample({"kind": "recorded on the live kernel", "line": lines[nrand]})
+        ctx.sample({"kind": "recorded on the live kernel", "line": lines[nrand]}, limit=4)
 
 
 # ---- vacuity ----------------------------------------------------------------
